@@ -926,7 +926,11 @@ func callBuiltin(caller *frame, callpos token.Pos, fn *ssa.Builtin, args []value
 			}
 			return res
 		}
-		newcap := growCap(cap(arg0), n+len(src))
+		elemT := fn.Type().(*types.Signature).Params().At(0).Type().Underlying().(*types.Slice).Elem()
+		newcap := growCap(cap(arg0), n+len(src), int(m.sizes.Sizeof(elemT)))
+		if newcap < n+len(src) {
+			newcap = n + len(src)
+		}
 		res := make([]value, n+len(src), newcap)
 		for i := 0; i < n; i++ {
 			res[i] = copyVal(arg0[i])
